@@ -1,5 +1,5 @@
 (* DriverTyped.v — case kinds typed / typedlist (C12, C16) and the spec-side kinds of C16. *)
-From MPD Require Import Bytes Tables Show ParserModel BuilderModel ConnModel FrameModel TagModel TypedModel.
+From MPD Require Import Bytes Tables Show ParserModel BuilderModel ConnModel FrameModel TagModel TypedModel TypedSpec.
 Open Scope N_scope.
 
 Definition t_find_tagv (ident : bytes) : option tagv :=
@@ -200,4 +200,46 @@ Definition run_typed (kind : bytes) (args : list bytes) : bytes :=
     | _ => b "bad-case"
     end.
 
+(* ---------- spec side as a driver kind: the Coq encoder of TypedSpec on an abstract status given
+   as field=value tokens (numbers decimal, strings hex, pairs p/i, durations in ms); the check
+   compares it with the hand-written Python mirror the oracle uses ---------- *)
+
+Fixpoint tok_lookup (toks : list bytes) (k : bytes) : option bytes :=
+  match toks with
+  | [] => None
+  | t :: r => match strip_prefix (k ++ [61]) t with Some v => Some v | None => tok_lookup r k end
+  end.
+
+Definition tok_num (toks : list bytes) (k : string) : option N := option_map read_N (tok_lookup toks (b k)).
+Definition tok_str (toks : list bytes) (k : string) : option bytes := option_map unhex (tok_lookup toks (b k)).
+Definition tok_bool (toks : list bytes) (k : string) : bool :=
+  match tok_lookup toks (b k) with Some [49] => true | _ => false end.
+Definition tok_pair (toks : list bytes) (k : string) : option (N * N) :=
+  match tok_lookup toks (b k) with
+  | Some v => match split_once 47 v with Some (p, i) => Some (read_N p, read_N i) | None => None end
+  | None => None
+  end.
+
+Definition status_of_tokens (toks : list bytes) : status :=
+  mkSt (tok_num toks "volume") (tok_bool toks "repeat") (tok_bool toks "random")
+       (match tok_lookup toks (b "single") with
+        | Some v => if beq v (b "1") then SingleOn else if beq v (b "oneshot") then SingleOneshot else SingleOff
+        | None => SingleOff end)
+       (tok_bool toks "consume") (tok_str toks "partition")
+       (match tok_num toks "playlist" with Some n => n | None => 0 end)
+       (match tok_num toks "playlistlength" with Some n => n | None => 0 end)
+       (tok_str toks "mixrampdb")
+       (match tok_lookup toks (b "state") with
+        | Some v => if beq v (b "play") then SPlay else if beq v (b "pause") then SPause else SStop
+        | None => SStop end)
+       (tok_num toks "xfade") (tok_str toks "mixrampdelay") (tok_pair toks "song") (tok_str toks "time")
+       (tok_num toks "elapsed") (tok_num toks "bitrate") (tok_num toks "duration") (tok_str toks "audio")
+       (tok_num toks "updating_db") (tok_str toks "error") (tok_pair toks "nextsong").
+
+Definition run_spec (kind : bytes) (args : list bytes) : bytes :=
+  if beq kind (b "spec_status") then
+    join [44] (map (fun p => hex (fst p) ++ [58] ++ hex (snd p)) (enc_status (status_of_tokens args)))
+  else b "unknown-kind".
+
 Definition is_typed_kind (k : bytes) : bool := existsb (beq k) [b "typed"; b "typedlist"].
+Definition is_typed_spec_kind (k : bytes) : bool := existsb (beq k) [b "spec_status"].
